@@ -127,6 +127,8 @@ fn sel_devs(points: &[ChoicePoint], upto: usize) -> usize {
 /// Lowest-cost prefixes first, so the first counterexample has the fewest deviations.
 pub fn explore(unit: &str, bounds: &Bounds, run: RunFn, known: &(dyn Fn(&str) -> bool + Sync), threads: usize) -> UnitReport {
     let start = Instant::now();
+    // memory this unit may add on top of what the process holds already (the allocator may keep what earlier units freed)
+    let rss0 = rss_gb();
     let queue = Arc::new((Mutex::new(Queue { buckets: vec![vec![vec![]]], in_flight: 0, in_flight_cost: vec![] }), Condvar::new()));
     let stop = Arc::new(AtomicBool::new(false));
     let execs = Arc::new(AtomicU64::new(0));
@@ -241,7 +243,7 @@ pub fn explore(unit: &str, bounds: &Bounds, run: RunFn, known: &(dyn Fn(&str) ->
                         Some(format!("execution cap {} reached", bounds.max_execs))
                     } else if start.elapsed() > bounds.max_wall {
                         Some(format!("wall-clock cap {}s reached", bounds.max_wall.as_secs()))
-                    } else if n % 2048 == 0 && rss_gb() > max_rss_gb() {
+                    } else if n % 2048 == 0 && rss_gb() - rss0 > max_rss_gb() {
                         // the frontier of unexplored prefixes lives in memory
                         Some(format!("memory cap {} GB reached", max_rss_gb()))
                     } else {
